@@ -82,6 +82,7 @@ VerdictCentring(r) ==
     ELSE IF ~r.plammps THEN "converted_cell_not_lammps_compatible"
     ELSE IF \E a \in 1..Len(r.patoms) : ~InNewCell(Scale(6, X(r.patoms[a])), r.pcell6, r.porg6, r.dd) THEN "primitive_atom_outside_its_cell"
     ELSE IF ~r.binside THEN "round_trip_atom_outside_its_cell"
+    ELSE IF ~r.undone THEN "conversions_do_not_undo_one_another"
     ELSE IF scb # "ok" THEN "round_trip_" \o scb
     ELSE IF r.bgram # r.gram THEN "round_trip_cell_differs"
     ELSE "ok"
